@@ -56,6 +56,16 @@ META = {
 # small settlement intervals: endorsements at every distance up to and including the boundary are generated
 CFG = {"alt_ki": 5, "alt_settle": 5, "payout_delay": 5, "payout_avg": 3, "vbk_settle": 6, "vbk_preserve": 6}
 
+# finalizing instance: small VBK reorg window and preserved window (VbkChainParams has no floor on either; BTC's floor
+# is the difficulty adjustment interval 2016, see the thorough tier), huge ALT window
+# (vbk_ki 3: the contextual check of a new VBK block needs the previous keystones, they must lie inside the preserved
+# window)
+CFG_LATE = {"alt_ki": 5, "alt_settle": 5, "payout_delay": 5, "payout_avg": 3, "vbk_settle": 6, "vbk_preserve": 6,
+            "vbk_maxreorg": 12, "vbk_ki": 3}
+
+# bootstrap configurations (blocks after genesis in the VBK / BTC bootstrap chain; 0 = bootstrapWithGenesis)
+BOOTS = [(0, 0), (3, 0), (0, 2), (2, 3), (4, 2)]
+
 EQUIV = (
     "persisted-equivalence used by the oracle: the sorted observation of ALL three trees through public getters "
     "(per non-deleted block: height, full status word, payload ids in order, containing endorsements, endorsedBy, "
@@ -84,8 +94,16 @@ def run_script(binary, sc, work, name):
 def judge(sc, res, stats=None):
     """-> list of failures: (tagbase, what, detail)"""
     fails = []
+    fin_tags = getattr(sc, "fin_tags", set())
     for i, tag in sc.meta.items():
         kind = tag[1]
+        r0 = res.get(i)
+        if r0 is not None and (r0.startswith("ABORT") or r0.startswith("THROW")) and kind in ("live", "rel", "load"):
+            # a failed VBK_ASSERT / exception inside the library on an API-conformant history
+            fails.append((tag[0], "library-abort", {"line": kind, "op_pos": tag[3] if kind != "load" else tag[3],
+                                                    "op": list(tag[4]) if kind == "rel" else (list(tag[3]) if kind == "live" else "load"),
+                                                    "result": r0}))
+            continue
         if kind == "load":
             r = res.get(i)
             if r != "ok":
@@ -98,12 +116,27 @@ def judge(sc, res, stats=None):
                                "live": res.get(a), "reloaded_answer": res.get(i)}))
             if stats is not None:
                 stats["followup_ops_compared"] += 1
+        elif kind == "clean":
+            # after saveTrees every block still in memory is clean
+            r = res.get(i, "")
+            left = sorted(S.parse_dirty(r)) if r and not r.startswith(("DEAD", "ABORT")) else []
+            if left:
+                fails.append((tag[0], "block-dirty-right-after-save", {"save_no": tag[2], "after_op": tag[3], "blocks": left[:8]}))
         elif kind in ("dumpR", "finalR"):
             a = tag[-1]
             if res.get(i) is None or res.get(a) is None:
                 fails.append((tag[0], "no-dump", {"id": i}))
                 continue
-            d1, d2 = S.diff_dumps(res[a], res[i])
+            if "DEAD" in (res[i], res[a]) or res[i].startswith("ABORT") or res[a].startswith("ABORT"):
+                continue          # reported through the aborting line itself
+            if tag[0] in fin_tags:
+                d1, d2 = S.diff_dumps_fin(res[a], res[i], kind == "dumpR")
+                if kind == "dumpR":
+                    inc = S.reload_inconsistencies(res[i])
+                    if inc:
+                        fails.append((tag[0], "reloaded-instance-inconsistent", {"tag": [str(x) for x in tag[2:-1]], "what": inc[:4]}))
+            else:
+                d1, d2 = S.diff_dumps(res[a], res[i])
             if d1 or d2:
                 fails.append((tag[0], "state-differs-after-reload" if kind == "dumpR" else "state-differs-after-follow-up",
                               {"tag": [str(x) for x in tag[2:-1]], "live_only": d1[:6], "reloaded_only": d2[:6]}))
@@ -122,31 +155,44 @@ def judge(sc, res, stats=None):
     return fails
 
 
-def one_case(binary, work, registry, ops, tail, saves, name="case"):
+def oracle_fails(sc, orc):
+    """failures reported by the harness's direct oracles (`!id text` lines) -> [(tagbase, what, detail)]"""
+    out = []
+    for i, text in orc:
+        tag = sc.meta.get(i)
+        if tag is not None:
+            out.append((tag[0], text.split()[0], {"line": tag[1], "op": list(tag[3]) if tag[1] == "live" else [str(x) for x in tag[2:5]],
+                                                  "oracle": text[:400]}))
+    return out
+
+
+def one_case(binary, work, registry, ops, tail, saves, name="case", fin=False):
     """run a single placement in its own process; -> failures"""
     sc = S.Script()
     for l in registry:
         sc.add(l)
-    S.emit_placement(sc, [tuple(o) for o in ops], [tuple(o) for o in tail], saves, 0)
-    S.emit_dirty_probe(sc, [tuple(o) for o in ops] + [tuple(o) for o in tail], 0)
+    S.emit_placement(sc, [tuple(o) for o in ops], [tuple(o) for o in tail], saves, 0, fin=fin)
+    if not fin:
+        S.emit_dirty_probe(sc, [tuple(o) for o in ops] + [tuple(o) for o in tail], 0)
     rc, res, orc, err = run_script(binary, sc, work, name + ".txt")
-    f = judge(sc, res)
-    pbad, _ = S.judge_dirty_probe(sc, res)
-    for tagbase, pos, w, miss, detail in pbad[:2]:
-        f.append((tagbase, "persisted-projection-changed-but-block-not-dirty",
-                  {"op_pos": pos, "op": list(w), "blocks": miss, "before_after": detail}))
+    f = oracle_fails(sc, orc) + judge(sc, res)
+    if not fin:
+        pbad, _ = S.judge_dirty_probe(sc, res)
+        for tagbase, pos, w, miss, detail in pbad[:2]:
+            f.append((tagbase, "persisted-projection-changed-but-block-not-dirty",
+                      {"op_pos": pos, "op": list(w), "blocks": miss, "before_after": detail}))
     if rc != 0:
         f.append((0, "harness-crashed", {"rc": rc, "stderr": err[-400:]}))
     return f
 
 
-def minimise(binary, work, registry, ops, tail, saves, budget=10):
+def minimise(binary, work, registry, ops, tail, saves, budget=10, fin=False):
     """cheap delta debugging: drop saves, then chunks of ops (registry kept), a bounded number of runs"""
     runs = [0]
 
     def fails(o, t, s):
         runs[0] += 1
-        return bool(one_case(binary, work, registry, o, t, s, "min%d" % runs[0]))
+        return bool(one_case(binary, work, registry, o, t, s, "min%d" % runs[0], fin=fin))
 
     saves = list(saves)
     ops = list(ops)
@@ -241,10 +287,10 @@ def corpus_cases():
     return out
 
 
-def report(ctx, binary, registry, ops, tail, saves, what, detail, do_min=True):
+def report(ctx, binary, registry, ops, tail, saves, what, detail, do_min=True, fin=False):
     if do_min:
         try:
-            ops, tail, saves = minimise(binary, ctx.work, registry, ops, tail, saves)
+            ops, tail, saves = minimise(binary, ctx.work, registry, ops, tail, saves, fin=fin)
         except Exception:
             pass
     key = json.dumps([ops, saves], default=list)
@@ -252,13 +298,15 @@ def report(ctx, binary, registry, ops, tail, saves, what, detail, do_min=True):
     if key in seen:
         return
     seen.add(key)
-    again = one_case(binary, ctx.work, registry, ops, tail, saves, "confirm")
+    again = one_case(binary, ctx.work, registry, ops, tail, saves, "confirm", fin=fin)
     if again:
         what, detail = again[0][1], again[0][2]
     ctx.violation({"kind": "ops", "registry": list(registry), "ops": [list(o) for o in ops],
-                   "tail": [list(o) for o in tail], "saves": list(saves), "what": what, "detail": detail,
-                   "how": "replay: registry lines build the blocks, ops run on a fresh instance with saveTrees after "
-                          "the listed op positions; a copy of the storage is loaded after every save and compared"})
+                   "tail": [list(o) for o in tail], "saves": list(saves), "fin": bool(fin), "what": what, "detail": detail,
+                   "how": "replay: registry lines build the blocks (the `begin` line carries the configuration incl. the "
+                          "bootstrap chains), ops run on a fresh instance with saveTrees after the listed op positions; "
+                          "a copy of the storage is loaded after every save, compared, and follows the live instance; "
+                          "fin: the instance itself is a loaded (finalizing) one, see props/_store.py emit_placement"})
 
 
 def run(ctx):
@@ -277,58 +325,92 @@ def run(ctx):
     # ---- replay mode
     if ctx.replay and ctx.replay.get("kind") == "ops":
         rp = ctx.replay
-        f = one_case(binary, ctx.work, rp["registry"], rp["ops"], rp.get("tail", []), rp["saves"], "replay")
+        f = one_case(binary, ctx.work, rp["registry"], rp["ops"], rp.get("tail", []), rp["saves"], "replay", fin=rp.get("fin", False))
         ctx.cov["evaluations"] = 1
         if f:
-            report(ctx, binary, rp["registry"], rp["ops"], rp.get("tail", []), rp["saves"], f[0][1], f[0][2], do_min=False)
+            report(ctx, binary, rp["registry"], rp["ops"], rp.get("tail", []), rp["saves"], f[0][1], f[0][2], do_min=False,
+                   fin=rp.get("fin", False))
         return
 
     # ---- corpus first (witnesses of repaired defects)
     ncorp = 0
     for fname, c in corpus_cases():
         ncorp += 1
-        f = one_case(binary, ctx.work, c["registry"], c["ops"], c.get("tail", []), c["saves"], "corpus%d" % ncorp)
+        f = one_case(binary, ctx.work, c["registry"], c["ops"], c.get("tail", []), c["saves"], "corpus%d" % ncorp,
+                     fin=c.get("fin", False))
         if f:
-            report(ctx, binary, c["registry"], c["ops"], c.get("tail", []), c["saves"], f[0][1], f[0][2], do_min=False)
+            report(ctx, binary, c["registry"], c["ops"], c.get("tail", []), c["saves"], f[0][1], f[0][2], do_min=False,
+                   fin=c.get("fin", False))
     stats["corpus_cases"] = ncorp
 
     # ---- generated histories x save placements
     quick = ctx.tier == "quick"
-    plan = []   # (nsteps, kmax, limit, count)
+    # ("hist", nsteps, kmax, limit, count): random histories x enumerated/sampled save placements, bootstrap
+    #     configuration cycling through BOOTS (genesis only / bootstrapWithChain for VBK, BTC, both);
+    # ("late", nblocks, count): loaded, finalizing instance (small VBK window), interleaved saves, late VTBs
     if quick:
-        plan = [(6, 3, 400, 6), (9, 3, 400, 4), (22, 3, 70, 8), (40, 2, 60, 4)]
+        plan = [("hist", 6, 3, 400, 6), ("hist", 9, 3, 400, 4), ("late", 34, 4), ("hist", 22, 3, 70, 8), ("hist", 40, 2, 60, 4)]
     else:
-        plan = [(6, 3, 2000, 40), (10, 3, 2000, 25), (14, 3, 3000, 10), (25, 3, 400, 60), (45, 3, 300, 40), (80, 2, 200, 10)]
+        plan = [("hist", 6, 3, 2000, 40), ("hist", 10, 3, 2000, 25), ("late", 40, 40), ("hist", 14, 3, 3000, 10),
+                ("hist", 25, 3, 400, 60), ("late", 70, 30), ("hist", 45, 3, 300, 40), ("hist", 80, 2, 200, 10)]
     evaluations = 0
     distinct = set()
     exhaustive_hist = 0
     hist_no = 0
     first_fail = {}
-    for (nsteps, kmax, limit, count) in plan:
+    for entry in plan:
         # several histories per process (each `begin` starts a new registry)
         sc = S.Script()
         cases = {}
         gens = {}
-        for _ in range(count):
-            hist_no += 1
-            r = ctx.rng.fork()
-            g, ops = S.gen_history(r, CFG, nsteps)
-            tail = S.tail_ops(g, r)
-            pl, exh = S.placements(len(ops), kmax, r, limit)
-            exhaustive_hist += 1 if exh else 0
-            S.emit_registry(sc, g)
-            # direct dirty oracle on this history (save after every op)
-            S.emit_dirty_probe(sc, ops + tail, (hist_no, "probe"))
-            gens[(hist_no, "probe")] = g
-            cases[(hist_no, "probe")] = (list(g.lines), ops, tail, list(range(1, len(ops) + len(tail) + 1)))
-            for pi, p in enumerate(pl):
-                S.emit_placement(sc, ops, tail, p, (hist_no, pi))
-                cases[(hist_no, pi)] = (list(g.lines), ops, tail, p)
+        if entry[0] == "late":
+            _, nblocks, count = entry
+            for _ in range(count):
+                hist_no += 1
+                r = ctx.rng.fork()
+                g, ops, saves = S.gen_late(r, CFG_LATE, nblocks)
+                S.emit_registry(sc, g)
+                S.emit_placement(sc, ops, [], saves, (hist_no, 0), fin=True)
+                cases[(hist_no, 0)] = (list(g.lines), ops, [], saves, True)
                 evaluations += 1
-                distinct.add((hist_no, p))
-            stats["history_ops_%s" % ("short" if nsteps < 12 else "long")] += len(ops)
-        rc, res, orc, err = run_script(binary, sc, ctx.work, "gen%d.txt" % nsteps)
-        fails = judge(sc, res, stats)
+                distinct.add((hist_no, tuple(saves)))
+                stats["late_histories"] += 1
+                stats["late_ops"] += len(ops)
+                stats["late_saves"] += len(saves)
+                stats["late_vtbs_delivered_late"] += sum(1 for a in g.alt.values() if a["vtbs"] and any(
+                    g.vbk[g.vtb[w]["containing"]]["height"] + 8 < max(g.vbk[v]["height"] for v in a["kv"]) for w in a["vtbs"]))
+            nsteps = "late%d" % nblocks
+        else:
+            _, nsteps, kmax, limit, count = entry
+            for _ in range(count):
+                hist_no += 1
+                r = ctx.rng.fork()
+                kv, kb = BOOTS[hist_no % len(BOOTS)]
+                cfg = dict(CFG)
+                if kv:
+                    cfg["vbk_bootstrap_chain"] = kv
+                if kb:
+                    cfg["btc_bootstrap_chain"] = kb
+                stats["bootstrap_vbk%d_btc%d" % (kv, kb)] += 1
+                g, ops = S.gen_history(r, cfg, nsteps, spfork_chance=(1, 5))
+                tail = S.tail_ops(g, r)
+                pl, exh = S.placements(len(ops), kmax, r, limit)
+                exhaustive_hist += 1 if exh else 0
+                S.emit_registry(sc, g)
+                # direct dirty oracle on this history (save after every op)
+                S.emit_dirty_probe(sc, ops + tail, (hist_no, "probe"))
+                gens[(hist_no, "probe")] = g
+                cases[(hist_no, "probe")] = (list(g.lines), ops, tail, list(range(1, len(ops) + len(tail) + 1)), False)
+                for pi, p in enumerate(pl):
+                    S.emit_placement(sc, ops, tail, p, (hist_no, pi))
+                    cases[(hist_no, pi)] = (list(g.lines), ops, tail, p, False)
+                    evaluations += 1
+                    distinct.add((hist_no, p))
+                stats["history_ops_%s" % ("short" if nsteps < 12 else "long")] += len(ops)
+                stats["sp_fork_blocks"] += g.n_spfork
+                stats["sp_fork_vtbs_on_btc_forks"] += g.n_spfork_vtb
+        rc, res, orc, err = run_script(binary, sc, ctx.work, "gen%s.txt" % nsteps)
+        fails = oracle_fails(sc, orc) + judge(sc, res, stats)
         pbad, pn = S.judge_dirty_probe(sc, res)
         stats["dirty_probe_steps"] += pn
         for tagbase, pos, w, miss, detail in pbad[:3]:
@@ -337,7 +419,7 @@ def run(ctx):
         mism = S.check_registries(sc, res)
         if mism:
             ctx.broken.append("generator/registry out of step: %s" % (mism[:2],))
-        if okm:
+        if okm and entry[0] == "hist":
             cbad = model_correspondence(ctx, model, sc, res, gens, stats)
             if cbad and not fails:
                 # model and implementation disagree and no direct oracle failed on these histories:
@@ -353,11 +435,11 @@ def run(ctx):
             if len(ctx.violations) >= 3:
                 break
             if tagbase in cases:
-                reg, ops, tail, p = cases[tagbase]
-                report(ctx, binary, reg, ops, tail, list(p), what, detail)
+                reg, ops, tail, p, fin = cases[tagbase]
+                report(ctx, binary, reg, ops, tail, list(p), what, detail, fin=fin)
         if first_fail:
             break
-        if quick and time.time() - t0 > 110:
+        if quick and time.time() - t0 > 130:
             stats["stopped_early_for_budget"] = 1
             break
 
